@@ -39,3 +39,12 @@ package config
 //@ func Config.MatchPkgFilter
 //@   property C05 C10
 //@   modifies nothing
+
+//@ func LogGroup.Debugf
+//@   property C13
+//@   requires l != nil
+//@   modifies nothing
+
+//@ func Config.ExceedsMaxDepth
+//@   property C13
+//@   modifies nothing
